@@ -55,6 +55,7 @@ WellFormed(r) ==
                                   /\ ToTarget(r.in.target) \in TargetTreesOf(r.in.shape)
   \* the plan expects what the scan saw (unless the case makes it older than the scan on purpose)
   /\ ~Stale(r) => \A j \in 1..Len(r.plan) : r.plan[j].old = At(Sync(r.scan0), r.plan[j].path)
+  /\ r.in.mode.rn2 \in {"", "enosys", "enotsup"}
   /\ Len(r.plan) >= 1
   \* edits are on pairwise incomparable paths
   /\ \A e1, e2 \in Rng(r.in.edits) : e1 # e2 => ~Comparable(e1.path, e2.path)
@@ -82,8 +83,8 @@ RECURSIVE ApplyEdits(_, _)
 ApplyEdits(t, es) == IF es = <<>> THEN t ELSE ApplyEdits(ApplyEdit(t, Head(es)), Tail(es))
 
 FromRecord(r) ==
-  ApplyEdits(Start(ToDiskReal(r.in.tree0), r.plan, r.in.mode.exdev, r.in.mode.owner,
-                   [any |-> FALSE, set |-> Rng(r.in.mode.missing)]),
+  ApplyEdits([Start(ToDiskReal(r.in.tree0), r.plan, r.in.mode.exdev, r.in.mode.owner,
+                    [any |-> FALSE, set |-> Rng(r.in.mode.missing)]) EXCEPT !.norn2 = r.in.mode.rn2 # ""],
              r.in.edits)
 
 RECURSIVE NoDigest(_)
